@@ -143,6 +143,11 @@ fn run_behaviour<T: Sc>(idx: usize, h: &HiLine, par: bool, rep: &mut Report) {
                 // C03 / C09: no Jacobian when a derivative fails or nothing is cached; never a partial one
                 let p = if st.g >= 0 || st.cache == 0 { "C09" } else { "C03" };
                 rep.check(p, j.is_some() == expect_present, 0.0, || det("jacobian presence"));
+                // whatever is handed out consists of computed values (under a poisoning allocator an
+                // element that was never written shows the fill pattern: C10)
+                if let Some(jm) = &j {
+                    crate::report::hash_obs::<T>(rep, &None, &None, &Some(jm.as_slice().to_vec()));
+                }
             }
             "intoseq" => {
                 let before = observe(prob.as_ref());
